@@ -631,6 +631,8 @@ Definition eres_eqb (a b : eres) : bool :=
 
 (* run-length helper for item lists in generated case files *)
 Definition rptl {A} (n : N) (x : A) : list A := repeat x (N.to_nat n).
+(* [n] copies of the byte pattern [p] *)
+Definition rptb (n : N) (p : list N) : list N := concat (repeat p (N.to_nat n)).
 
 Inductive case :=
 | CEnc (m : message)                              (* Message::encode into a Vec / wire::serialize *)
